@@ -248,6 +248,17 @@ func RunParent(id, tier string, seed int64, onlyBatch, onlyCase int) int {
 	for _, o := range outcomes {
 		if o.timedOut {
 			inconclusive = append(inconclusive, fmt.Sprintf("batch %d: watchdog (%ds) fired; see %s", o.batch, timeout, o.outFile))
+			// violations journalled before the watchdog fired are still violations
+			jb, _ := os.ReadFile(filepath.Join(outDir, fmt.Sprintf("batch-%03d.journal", o.batch)))
+			for _, l := range strings.Split(string(jb), "\n") {
+				if strings.HasPrefix(l, "VIOLATION case=") {
+					var cs int
+					var key string
+					if n, _ := fmt.Sscanf(l, "VIOLATION case=%d key=%s", &cs, &key); n == 2 {
+						violations = append(violations, ViolationRec{Key: key, Case: cs, Detail: map[string]interface{}{"batch": o.batch, "witness": "batch timed out after journalling this violation; re-run the case for the witness"}})
+					}
+				}
+			}
 			continue
 		}
 		if o.crashed {
